@@ -309,6 +309,43 @@ static void one_case(int iface, int transport, int version, int src_tail, int nc
 						KSI_free(r1); KSI_free(r2); KSI_Signature_free(again);
 					}
 				} else res = err ? err : KSI_UNKNOWN_ERROR;
+				if (iface == 2 && state == KSI_ASYNC_STATE_RESPONSE_RECEIVED && res == KSI_OK && ext != NULL) {
+					/* the handle is submitted once more; this time the extender refuses (status 0x101): the second round ends with an error and
+					 * nothing of the first round's reply is left on the handle */
+					server_t S1 = S;
+					KSI_AsyncHandle *out2 = NULL;
+					int k, st2 = -1, r2;
+					memset(&S.last, 0, sizeof S.last);
+					S.reply = R_STATUS; S.sub = 0; S.nreq = 0;
+					r2 = KSI_AsyncService_addRequest(svc, out);
+					vf_count("impl_calls", 1);
+					if (r2 != KSI_OK) vf_outcome("async:readd-refused");
+					else {
+						for (k = 0; k < 60 && out2 == NULL; k++) {
+							size_t waiting = 0;
+							if (KSI_AsyncService_run(svc, &out2, &waiting) != KSI_OK) break;
+							vf_count("impl_calls", 1);
+							if (out2 == NULL) sn_now += 1;
+						}
+						if (out2 == NULL) vf_fail("async-no-completion", "%s: the re-submitted handle was not handed back within 60 rounds", what);
+						else {
+							KSI_Signature *none = NULL;
+							KSI_ExtendResp *er2 = NULL;
+							int sr;
+							if (out2 != out) vf_fail("foreign-handle", "%s: the service handed back another handle than the one re-submitted", what);
+							KSI_AsyncHandle_getState(out2, &st2);
+							sr = KSI_AsyncHandle_getSignature(out2, &none);
+							KSI_AsyncHandle_getExtendResp(out2, &er2);
+							if (st2 != KSI_ASYNC_STATE_ERROR) vf_fail("success-on-unacceptable-reply", "%s: the re-submitted request was refused by the extender (status 0x101) but came back in state %d", what, st2);
+							if (sr == KSI_OK || none != NULL) vf_fail("stale-result-on-readded-handle", "%s: the re-submitted request was refused by the extender but KSI_AsyncHandle_getSignature gives 0x%x and %s (left over from the first round)", what, sr, none ? "a signature" : "NULL");
+							if (er2 != NULL) vf_fail("stale-result-on-readded-handle", "%s: the re-submitted request was refused by the extender but the handle still carries a response object", what);
+							KSI_Signature_free(none);
+							vf_outcome("async:readd:second-round-%s", st2 == KSI_ASYNC_STATE_ERROR ? "error" : "other");
+						}
+					}
+					rp_req_free(&S.last);
+					S = S1;
+				}
 				KSI_AsyncHandle_free(out);
 			}
 		}
